@@ -219,7 +219,15 @@ impl World {
         if self.dead || self.torn {
             return;
         }
+        let t0 = std::time::Instant::now();
         let r = catch_unwind(AssertUnwindSafe(|| self.probe.event(ProbeEvent::Heartbeat { interval_ms: 1000, away_ms: 1250 })));
+        if t0.elapsed() > std::time::Duration::from_millis(1700) {
+            // the thread overslept (a loaded machine): the Rx timer (due at 2 s) may or may not
+            // have expired as well - the observation decides nothing, the case ends here
+            self.stats.push("heartbeat-oversleep-discarded".into());
+            self.dead = true; // nothing more is recorded for this case
+            return;
+        }
         let ob = self.outcome(r);
         self.stats.push("heartbeat-tx".into());
         self.record("OEvent (EvHeartbeat [(HbTx, true)])".into(), ob);
